@@ -1408,3 +1408,91 @@ func ruleChildCreateAsksParent(c *Ctx, rule string) {
 	walk(fn, 0)
 	c.Check(asks, rule, FnName(fn)+": parent row of a child create", p.Pos(fn.Pos()), "a create through a child store asks whether the parent's row already exists", "Create tests only the store's own bucket for the id and hands create=true to the parent's indexing context: a child created over the id of an existing parent-only entity rewrites the parent's fields without the old values ever being read, so the parent's unique and set indexes keep the old entries as well (CheckIntegrity: `references <id> for value <old> which should be <new>`) and a later delete leaves them behind (ValidateDeleted finds the id under the old index value)")
 }
+
+// ruleLoopFlowKept (C08.FLOWKEPT): what an iteration of a loop on the delete path was answered by a store's
+// delete-constraint step (its change flow: the events to fire) is kept — appended, or used in that iteration —
+// and not merely left in a variable that the next iteration overwrites: with two child stores the flow of the
+// store the entity lives in is wiped by the nil answer of a later sibling, and that store's delete event and
+// pre-commit constraints never run.
+func ruleLoopFlowKept(c *Ctx, rule string) {
+	p := c.P
+	root := p.SSAFunc(p.Method("boltz", "BaseStore", "DeleteById"))
+	flowT := p.Named("boltz", "entityChangeFlow")
+	var fns []*ssa.Function
+	seen := map[*ssa.Function]bool{}
+	var collect func(f *ssa.Function, d int)
+	collect = func(f *ssa.Function, d int) {
+		if seen[f] || d > 2 {
+			return
+		}
+		seen[f] = true
+		fns = append(fns, f)
+		for _, call := range callsIn(f) {
+			if sc := call.Common().StaticCallee(); sc != nil && sc.Pkg == root.Pkg && len(sc.Blocks) > 0 {
+				collect(sc, d+1)
+			}
+		}
+	}
+	collect(root, 0)
+	n := 0
+	for _, fn := range fns {
+		for _, l := range loopsOf(fn) {
+			for b := range l.Blocks {
+				for _, in := range b.Instrs {
+					cv, ok := in.(*ssa.Call)
+					if !ok {
+						continue
+					}
+					// the flow value of the call: the call itself or the first element of its tuple
+					var flows []ssa.Value
+					if namedOf(cv.Type()) == flowT && flowT != nil {
+						flows = append(flows, cv)
+					}
+					if tup, isT := cv.Type().(*types.Tuple); isT && tup.Len() > 0 && namedOf(tup.At(0).Type()) == flowT && flowT != nil {
+						if refs := cv.Referrers(); refs != nil {
+							for _, r := range *refs {
+								if ex, isEx := r.(*ssa.Extract); isEx && ex.Index == 0 {
+									flows = append(flows, ex)
+								}
+							}
+						}
+					}
+					for _, v := range flows {
+						n++
+						c.Analysed(FnName(fn))
+						var lost *ssa.Phi
+						for _, hin := range l.Header.Instrs {
+							phi, isPhi := hin.(*ssa.Phi)
+							if !isPhi {
+								break
+							}
+							carried := false
+							for i, e := range phi.Edges {
+								if l.Blocks[l.Header.Preds[i]] && e == v {
+									carried = true // the back edge carries this iteration's answer as it is
+								}
+							}
+							if !carried {
+								continue
+							}
+							usedInside := false
+							if refs := phi.Referrers(); refs != nil {
+								for _, r := range *refs {
+									if _, isDbg := r.(*ssa.DebugRef); !isDbg && l.Blocks[r.Block()] && r != ssa.Instruction(phi) {
+										usedInside = true
+									}
+								}
+							}
+							if !usedInside {
+								lost = phi
+							}
+						}
+						c.Check(lost == nil, rule, FnName(fn)+": "+describeInstr(cv)+" in a loop", p.Pos(cv.Pos()), "the answer of an iteration is kept (appended or used in that iteration)", "the change flow an iteration is answered is only left in a variable that the next iteration overwrites unconditionally: with two child stores the flow of the store the entity lives in is wiped by the nil answer of a later sibling — that store's delete event and its pre-commit constraints never run")
+					}
+				}
+			}
+		}
+	}
+	c.CallSites(n)
+	c.Floor(rule, 1)
+}
